@@ -520,7 +520,7 @@ def parse_include_line(raw):
 def flatten(tree_files, inc_dirs, path, choice=None, ambiguous=None, depth=0):
     """Replace every include line by the lines of the file the statement says must be found.
     choice: dict (from, written) -> index among candidates for ambiguous includes."""
-    if depth > 20:
+    if depth > 200:
         raise RecursionError('include cycle')
     out = []
     text = tree_files[path].decode('utf-8')
@@ -548,7 +548,7 @@ FAULTS = {
     'imm-range': ['addi t0, t0, 2048', 'addi t0, t0, -2049', 'lw t0, 4096(sp)', 'sw t0, -2049(sp)', 'lui t0, 0x100000', 'lui t0, -1',
                   'beq t0, t1, 4096', 'beq t0, t1, -4098', 'jal ra, 1048576', 'jal x0, -1048578', 'c.addi t0, 32', 'c.li t0, -33',
                   'fence 16 0', 'fence rx, w', 'fence iorw, q', 'fence 1, z', 'fence 0b1111, 0x1f', 'andi s0, s0, 4000', 'slti a0, a0, 99999', 'jalr x0, 2048(t0)', 'lb a0, -3000(a1)', 'auipc t0, 1048576',
-                  'beq t0, t1, 3', 'jal ra, 5', 'align 0', 'addi {r}, {r}, 5000', 'lw {r}, 9999({r})', 'slli {r}, {r}, 40', 'csrrw t0, 4096, t1', 'c.lui t0, 64', 'c.addi16sp 1024', 'c.jal 4096', 'c.lwsp t0, 256'],
+                  'beq t0, t1, 3', 'jal ra, 5', 'align 0', 'csrrw t0, t1, 4096', 'csrrs a0, x0, 0xffff', 'csrrc t0, t0, 0x1000', 'csrrwi t0, 5, 0x1000', 'csrrwi t0, 32, 0x300', 'addi {r}, {r}, 5000', 'lw {r}, 9999({r})', 'slli {r}, {r}, 40', 'csrrw t0, 4096, t1', 'c.lui t0, 64', 'c.addi16sp 1024', 'c.jal 4096', 'c.lwsp t0, 256'],
     'imm-range-pseudo': ['li t0, 1 << 40', 'li t0, 0x100000000 * 4096 + 0x1000'],
     'data-range': ['db 256', 'db -129', 'dh 65536', 'dh -32769', 'dw 4294967296', 'dw -2147483649', 'dd 18446744073709551616',
                    'bytes 256', 'bytes 1 2 -129', 'shorts 65536', 'shorts -32769', 'ints 4294967296', 'longs -2147483649',
